@@ -132,3 +132,46 @@ Definition sample_entry (k : nat) (bs : seq nat) (n : nat) (x : tens) (z : seq F
        sumn_ ar (fun a => amul ar (rd x.2 ((entry_member x b * n + i) * r + a)) (rd z ((b * r + a) * k + t))) r)).
 
 End ModelBatch.
+
+(* ------------------------------------------------------------------ (4) the root METHOD chosen from the cache state
+   _linear_operator.py  _choose_root_method: the first cached eigendecomposition wins, then a cached lanczos entry, then the
+   size / fast_computations rule; root_decomposition(): cholesky -> CholLinearOperator(self.cholesky()) (falling back to
+   'symeig' when the factorization raises), symeig / diagonalization -> evecs * evals.clamp_min(0.0).sqrt().unsqueeze(-2),
+   lanczos -> self._root_decomposition(). *)
+Inductive rmethod := RMSymeig | RMDiag | RMLanczos | RMCholesky.
+
+(* which entries the memoize cache of the operator holds (any arguments) *)
+Record cstate := MkCState { has_symeig : bool; has_diag : bool; has_lanczos : bool }.
+
+Definition choose_root_method (st : sett) (c : cstate) (n : nat) : rmethod :=
+  if has_symeig c then RMSymeig
+  else if has_diag c then RMDiag
+  else if has_lanczos c then RMLanczos
+  else if (n <= max_chol st) || ~~ fast_root st then RMCholesky
+  else RMLanczos.
+
+Definition rmethod_code (m : rmethod) : nat :=
+  match m with RMSymeig => 0 | RMDiag => 1 | RMLanczos => 2 | RMCholesky => 3 end.
+
+Section ModelMethod.
+Variable F : Type.
+Variable ar : Arith F.
+Notation rd := (rd ar).
+
+(* evecs * flt(evals).sqrt().unsqueeze(-2):  w:(B, n) eigenvalues, Q:(B, n, n) eigenvectors in columns; the code's filter
+   is clamp_min(0.0) *)
+Definition eig_root (flt : F -> F) (B n : nat) (w Q : seq F) : seq F :=
+  tab3 B n n (fun b i a => amul ar (rd Q ((b * n + i) * n + a)) (asqrt ar (flt (rd w (b * n + a))))).
+
+(* what root_decomposition() returns for the method chosen (rank, root:(B, n, rank)); the ingredients that are results
+   of other routines (eigendecompositions, Lanczos root) are inputs *)
+Definition method_root (flt : F -> F) (m : rmethod) (B n : nat) (A : seq F)
+           (sym dia : seq F * seq F) (lz : nat * seq F) (chol_fails : bool) : nat * seq F :=
+  match m with
+  | RMCholesky => if chol_fails then (n, eig_root flt B n sym.1 sym.2) else (n, chol_flat ar B n A)
+  | RMSymeig => (n, eig_root flt B n sym.1 sym.2)
+  | RMDiag => (n, eig_root flt B n dia.1 dia.2)
+  | RMLanczos => lz
+  end.
+
+End ModelMethod.
